@@ -60,11 +60,14 @@ def main(argv=None):
                 dumps.setdefault(fs, []).append(f.result()[0])
             except Exception as e:
                 panics.append((fs, p, str(e)))
-    placements = run_consts(fss[0], ["vmplacements"])
-    core = run_consts(fss[0], ["core"])[0]["core"]
-    with ThreadPoolExecutor(16) as ex:
-        res = list(ex.map(lambda i: run_consts(fss[0], ["vmreserved", str(i)])[0], range(len(placements))))
-    reserved_by_placement = {r["placement"]: r["reserved"] for r in res}
+    # VM placements, core chain and reserved sizes are constants of the linked crate: one set per feature set
+    placements, core, reserved_by_placement = {}, {}, {}
+    for fs in fss:
+        placements[fs] = run_consts(fs, ["vmplacements"])
+        core[fs] = run_consts(fs, ["core"])[0]["core"]
+        with ThreadPoolExecutor(16) as ex:
+            res = list(ex.map(lambda i, fs=fs: run_consts(fs, ["vmreserved", str(i)])[0], range(len(placements[fs]))))
+        reserved_by_placement[fs] = {r["placement"]: r["reserved"] for r in res}
     rows, configs, core_end = T.build_rows(dumps, placements, core, reserved_by_placement)
     names = {s[0] for (_, specs) in rows for s in specs}
     T.emit(rows, names, os.path.join(E.LEAN_DIR, "MmtkModel", "Generated", "SpecTable.lean"))
@@ -103,7 +106,7 @@ def main(argv=None):
                    for (r, specs), c in list(sorted(rows.items()))[:2]]
     corr = {
         "evaluations": len(configs), "distinct_nontrivial": len(rows), "exhaustive": True,
-        "rule": "every (feature set, plan, VM placement) triple: feature sets %s x plans that instantiate x %d placements (log bit header/side x every order of every subset of {forwarding bits, mark bit, pinning bit, LOS mark/nursery} on the side); distinct = distinct (reserved, spec set) rows; every row is non-trivial (>= 1 spec)" % (fss, len(placements)),
+        "rule": "every (feature set, plan, VM placement) triple: feature sets %s x plans that instantiate x %d placements (log bit header/side x every order of every subset of {forwarding bits, mark bit, pinning bit, LOS mark/nursery} on the side); distinct = distinct (reserved, spec set) rows; every row is non-trivial (>= 1 spec)" % (fss, len(placements[fss[0]])),
         "samples": sample_rows,
         "programs": len(configs), "disagreements_checked": len(bad),
         "plans_not_instantiable": [(f, p, m[-200:]) for f, p, m in panics],
